@@ -1079,6 +1079,67 @@ func checkDidDocumentValid(p *Prog, r *Report, kp func(string, string) string) {
 	} else {
 		r.OKTrivial(kp("LOOP", "DIDDocument.validVerificationRelationships#anchor"), "the relationship validator is a method of the document", p.FnPos(valid), "no method of that name: its body is not examined here (the relationship lists are still required to be validated, see #relationships)")
 	}
+	// the validator of one relationship: whatever it accepts went through the method validator (embedded method) or the
+	// method-id validator (plain reference) — "it is looked up later anyway" does not make a reference well-formed, since the
+	// lookup is only as strict as the lookup function
+	if vr := p.Named(Rel(didTypesPkg), "VerificationRelationship"); vr != nil {
+		if rv := p.MethodOf(vr, "Valid"); rv != nil && rv.Blocks != nil {
+			isValidator := func(f *ssa.Function) bool {
+				n := FuncName(f)
+				return strings.HasSuffix(n, "types.ValidateVerificationMethodID") || strings.HasSuffix(n, "VerificationMethod).Valid")
+			}
+			var viaValidator func(v ssa.Value, seen map[ssa.Value]bool) bool
+			viaValidator = func(v ssa.Value, seen map[ssa.Value]bool) bool {
+				if seen[v] {
+					return true
+				}
+				seen[v] = true
+				switch x := v.(type) {
+				case *ssa.Const:
+					return x.Value != nil && x.Value.String() == "false"
+				case *ssa.Phi:
+					for _, e := range x.Edges {
+						if !viaValidator(e, seen) {
+							return false
+						}
+					}
+					return true
+				case *ssa.Call:
+					sc := x.Call.StaticCallee()
+					if sc == nil {
+						return false
+					}
+					sc = resolveBound(sc)
+					if isValidator(sc) {
+						return true
+					}
+					if !InModule(sc) || sc.Blocks == nil {
+						return false
+					}
+					reach := p.ReachFrom([]*ssa.Function{sc}, func(f *ssa.Function) bool { return InModule(f) && !p.IsGenerated(f) })
+					for _, g := range reach.Order {
+						if isValidator(g) {
+							return true
+						}
+					}
+					return false
+				case *ssa.BinOp:
+					return viaValidator(x.X, seen) || viaValidator(x.Y, seen)
+				}
+				return false
+			}
+			bad := ""
+			for _, ret := range returnsOf(rv) {
+				if len(ret.Results) == 1 && !viaValidator(ret.Results[0], map[ssa.Value]bool{}) {
+					bad = p.Pos(ret.Pos())
+				}
+			}
+			r.Check(bad == "", kp("FIELDS", "VerificationRelationship.Valid#through-the-id-validators"), "a relationship is accepted only through the verification-method validator (embedded) or the method-id validator (reference)", p.FnPos(rv),
+				"every accepting return is the verdict of VerificationMethod.Valid or ValidateVerificationMethodID", "the return at "+bad+" accepts a relationship on a test of its own: a reference that is not of the form <did>#<name> (a bare fragment, another DID's key) passes validation and is stored")
+		} else {
+			r.Fail(kp("FIELDS", "VerificationRelationship.Valid#anchor"), "anchor", didTypesPkg, "VerificationRelationship.Valid not found")
+		}
+	}
 	// the plural predicates behind the optional list fields quantify over every element
 	checkPluralPredicates(p, r, kp, didTypesPkg)
 	// the optional list fields: when present, contexts pass ValidateContexts; a controller list is empty or made of DIDs
